@@ -215,13 +215,42 @@ def run(cmd, timeout=600, env=None, cwd=None, ok_codes=(0,)):
 # Trace validation: one TLC process; the trace spec splits the log into NSHARDS chains
 # (each starting at a reset event) which TLC's workers validate in parallel.
 
-def validate_trace(module, cfg, trace_path, nshards=None, timeout=1800, heap="4g", files=None):
+def validate_trace(module, cfg, trace_path, nshards=None, timeout=1800, heap="4g", files=None, chunk=None):
     """Run the trace spec over the trace. Returns dict(viol=[...], drift=[...], events=n, states=n).
-    Each viol/drift item is the list the spec printed: [tag, line, behaviour, what]."""
+    Each viol/drift item is the list the spec printed: [tag, line, behaviour, what].
+    chunk=N: a trace of more than N lines is cut at behaviour boundaries (the "beh" field changes; only for
+    traces whose behaviours are not interleaved and each start with their reset event) into pieces of about N
+    lines which are validated one after the other, so that the deserialised log always fits the heap."""
     nshards = nshards or min(NCPU, 8)
     n = sum(1 for _ in open(trace_path))
     if n == 0:
         return dict(viol=[], drift=[], events=0, states=0)
+    if chunk and n > chunk:
+        pieces, cur, curbeh, start = [], [], None, 0
+        with open(trace_path) as f:
+            for i, line in enumerate(f):
+                beh = json.loads(line).get("beh")
+                if len(cur) >= chunk and beh != curbeh:
+                    pieces.append((start, cur))
+                    cur, start = [], i
+                cur.append(line)
+                curbeh = beh
+        pieces.append((start, cur))
+        tot = dict(viol=[], drift=[], events=0, states=0)
+        for k, (off, lines) in enumerate(pieces):
+            pp = "%s.part%d" % (trace_path, k)
+            with open(pp, "w") as f:
+                f.writelines(lines)
+            r = validate_trace(module, cfg, pp, nshards=nshards, timeout=timeout, heap=heap, files=files)
+            os.remove(pp)
+            for tag in ("viol", "drift"):
+                for item in r[tag]:
+                    if isinstance(item, list) and len(item) > 1 and isinstance(item[1], int):
+                        item[1] += off
+                    tot[tag].append(item)
+            tot["events"] += r["events"]
+            tot["states"] += r["states"]
+        return tot
     res = tlc(module, cfg, workers=nshards, env={"TRACE": trace_path, "NSHARDS": str(nshards)},
               timeout=timeout, heap=heap, label="tv", short=(n < 20000), young="128m", files=files)
     if not res.completed or res.errors or res.violated:
